@@ -23,6 +23,7 @@ import QV.Lemmas.CDChain
 import QV.Model.CallForm
 import QV.Lemmas.CallForm
 import QV.Props.C05
+import QV.Lemmas.ArgConv
 import Mathlib.Data.List.Basic
 
 namespace QV.Props
@@ -383,5 +384,97 @@ example : lrEnd (β := String) (stepLRNext (1 / 2 : ℚ) 1) 8 0 [["a", "b"], ["c
 example : (CallForm.fitBind true [.ref 7, .int 3, .int 4, .int 2, .int 1, .ref 8, .ref 9] []).toOption.map
       (fun r => (CallForm.bound r "k", CallForm.bound r "lr", CallForm.bound r "input_bases", CallForm.bound r "optimizer"))
     = some (some (.int 1), some (.ref 8), some (.ref 9), some (.ref CallForm.refDefaultOptimizer)) := by rfl
+
+
+/-! ## Extension round 2 (code inside the model): the refusals and the silent truncation of `vector_to_grads`
+
+`ArgConv.vectorToGradsE` models `gradients_utils.py:21-52` with its branches: `TypeError` for a non-tensor vector (`:31-34`), the
+`.view(param.size())` failure for a vector that runs out (`:49`), the refused `.grad` assignment for a vector of another element
+type than the (double) parameters, and NO check that the vector is used up. -/
+
+open ArgConv in
+/-- **C06.2c** `vector_to_grads` with its refusals: a call is accepted IFF the vector is a tensor with at least as many entries as the
+parameters have in total (and of the parameters' element type, unless there is no parameter at all); every accepted call gives every
+parameter exactly its slice of the vector — the slices, concatenated in `parameters()` order, are the first `Σ sizes` entries and
+parameter `i` receives `sizes[i]` of them (`C06_slices` is the case of an exact-length vector). -/
+theorem C06_slices_exact {α : Type} (v : VecArg α) (sizes : List ℕ) :
+    ((∃ gs, vectorToGradsE v sizes = .ok gs) ↔
+      ∃ dt vec, v = .tensor dt vec ∧ sizes.sum ≤ vec.length ∧ (dt = .float64 ∨ sizes = [])) ∧
+    (∀ gs, vectorToGradsE v sizes = .ok gs → ∃ dt vec, v = .tensor dt vec ∧ gs = vectorToGrads vec sizes ∧
+      gs.flatten = vec.take sizes.sum ∧ gs.map List.length = sizes) := by
+  cases v with
+  | other => simp [vectorToGradsE]
+  | tensor dt vec =>
+    by_cases hlen : sizes.sum ≤ vec.length
+    · by_cases hd : dt = .float64
+      · subst hd
+        have h := assignLoop_ok vec sizes [] hlen
+        obtain ⟨f1, f2⟩ := vectorToGrads_flatten vec sizes hlen
+        simp only [vectorToGradsE, h, List.nil_append]
+        refine ⟨⟨fun _ => ⟨_, _, rfl, hlen, Or.inl rfl⟩, fun _ => ⟨_, rfl⟩⟩, ?_⟩
+        intro gs hgs
+        cases hgs
+        exact ⟨_, _, rfl, rfl, f1, f2⟩
+      · cases sizes with
+        | nil => simp [vectorToGradsE, assignLoop, vectorToGrads]
+        | cons k ks =>
+          have h := assignLoop_other hd vec k ks []
+          have : vectorToGradsE (.tensor dt vec) (k :: ks) = .error .RuntimeError := by
+            simp only [vectorToGradsE]; split <;> simp_all
+          simp [this, hd]
+    · have h := assignLoop_short dt vec sizes [] hlen
+      have : vectorToGradsE (.tensor dt vec) sizes = .error .RuntimeError := by
+        simp only [vectorToGradsE]; split <;> simp_all
+      simp only [this]
+      refine ⟨⟨fun hx => ?_, fun hx => ?_⟩, fun _ hx => by cases hx⟩
+      · obtain ⟨_, hx⟩ := hx; cases hx
+      · obtain ⟨_, _, he, hl, _⟩ := hx
+        cases he; exact absurd hl hlen
+
+open ArgConv in
+/-- **C06.2d** the silent truncation: entries of the vector beyond the total parameter count never reach a parameter — a vector that is
+too LONG is accepted and gives exactly what its leading part gives (no error tells the caller that values were dropped). -/
+theorem C06_slices_tail_ignored {α : Type} (vec tail : List α) (sizes : List ℕ) (h : sizes.sum ≤ vec.length) :
+    vectorToGradsE (.tensor .float64 (vec ++ tail)) sizes = vectorToGradsE (.tensor .float64 vec) sizes ∧
+    vectorToGradsE (.tensor .float64 vec) sizes = .ok (vectorToGrads vec sizes) := by
+  have h1 := assignLoop_ok vec sizes [] h
+  have h2 := assignLoop_ok (vec ++ tail) sizes [] (by simp; omega)
+  simp only [vectorToGradsE, h1, h2, List.nil_append, vectorToGrads_append vec tail sizes h, and_self]
+
+theorem length_flatten_rbm (g : RBM ℝ n h) : g.flatten.length = (rbmSizes n h).sum := by
+  simp [RBM.flatten, rbmSizes]
+
+theorem length_flatten_prbm (g : PRBM ℝ n h a) : g.flatten.length = (prbmSizes n h a).sum := by
+  simp [PRBM.flatten, prbmSizes]
+
+open ArgConv in
+/-- **C06.2e** `fit` never relies on the truncation: the flat gradient of a network (`compute_batch_gradients` returns one per network:
+`effective_energy_gradient` / the positive phase in `parameters_to_vector` layout, `RBM.flatten`; every gradient record of the step
+models `stepPos` / `stepCplx` / `stepDM` is such a `g`) has EXACTLY the total parameter count of that network, so the call
+`vector_to_grads(all_grads[i], rbm.parameters())` is accepted, uses the vector up (`take` of the whole length) and gives the blocks
+of `C06_lands_on_parameter`. -/
+theorem C06_fit_vector_length (g : RBM ℝ n h) (gd : PRBM ℝ n h a) :
+    g.flatten.length = (rbmSizes n h).sum ∧
+    vectorToGradsE (.tensor .float64 g.flatten) (rbmSizes n h) = .ok (rbmParamGrads g) ∧
+    (rbmParamGrads g).flatten = g.flatten ∧
+    gd.flatten.length = (prbmSizes n h a).sum ∧
+    vectorToGradsE (.tensor .float64 gd.flatten) (prbmSizes n h a) = .ok (prbmParamGrads gd) ∧
+    (prbmParamGrads gd).flatten = gd.flatten := by
+  have l1 := length_flatten_rbm g
+  have l2 := length_flatten_prbm gd
+  have a1 := vectorToGrads_flatten g.flatten (rbmSizes n h) (le_of_eq l1.symm)
+  have a2 := vectorToGrads_flatten gd.flatten (prbmSizes n h a) (le_of_eq l2.symm)
+  refine ⟨l1, (C06_slices_tail_ignored _ [] _ (le_of_eq l1.symm)).2, ?_, l2, (C06_slices_tail_ignored _ [] _ (le_of_eq l2.symm)).2, ?_⟩
+  · rw [rbmParamGrads, a1.1, ← l1, List.take_length]
+  · rw [prbmParamGrads, a2.1, ← l2, List.take_length]
+
+-- the hypotheses are satisfiable and the branches distinct: exact, too long (tail dropped), too short (refused after the first
+-- parameter was assigned), single-precision vector, non-tensor
+example : ArgConv.vectorToGradsE (.tensor .float64 [1, 2, 3, 4, 5]) [2, 3] = .ok [[1, 2], [3, 4, 5]] := rfl
+example : ArgConv.vectorToGradsE (.tensor .float64 [1, 2, 3, 4, 5, 6, 7]) [2, 3] = .ok [[1, 2], [3, 4, 5]] := rfl
+example : ArgConv.vectorToGradsE (.tensor .float64 [1, 2, 3, 4]) [2, 3] = .error .RuntimeError := rfl
+example : ArgConv.vectorToGradsAssigned (.tensor .float64 [1, 2, 3, 4]) [2, 3] = [[1, 2]] := rfl
+example : ArgConv.vectorToGradsE (.tensor .float32 [1, 2, 3, 4, 5]) [2, 3] = .error .RuntimeError := rfl
+example : ArgConv.vectorToGradsE (ArgConv.VecArg.other (α := ℕ)) [2, 3] = .error .TypeError := rfl
 
 end QV.Props
